@@ -580,7 +580,10 @@ func (s *S) Run(c *scen.Ctx) {
 	simnet.Cfg.Fragment = simrt.Draw(2, "c01.frag") == 1
 	simnet.Cfg.Delay = simrt.Draw(3, "c01.delay") == 2
 	s.pool = []int{0, 0, 2, 5}[simrt.Draw(4, "c01.pool")]
-	comm := world.NewClient(world.ClientOpts{InvokeTimeoutMs: 30000})
+	// a short client idle time-out: connections are closed between bursts of calls and opened again
+	idle := []time.Duration{0, 0, time.Second}[simrt.Draw(3, "c01.clientidle")]
+	c.Describe("client_idle_timeout", idle.String())
+	comm := world.NewClient(world.ClientOpts{InvokeTimeoutMs: 30000, IdleTimeout: idle})
 	s.installFilters(c)
 	conf := &transport.TarsServerConf{Proto: "tcp", Address: addr, MaxInvoke: int32(s.pool), QueueCap: 1000,
 		AcceptTimeout: 500 * time.Millisecond, IdleTimeout: 600 * time.Second}
@@ -633,6 +636,17 @@ func (s *S) Run(c *scen.Ctx) {
 		})
 	}
 	wg.Wait()
+	if idle > 0 {
+		// the connection goes idle and is closed by the client; then one more call, and idle again
+		simrt.Sleep(idle + 1500*time.Millisecond)
+		s.mu.Lock()
+		nonce++
+		n := nonce
+		s.mu.Unlock()
+		s.call(c, prxs[0], s.newPlan(c, n, 0, -1))
+		simrt.Sleep(idle + 1500*time.Millisecond)
+		c.Count("probe.calls_around_client_idle_close", 1)
+	}
 	simrt.Sleep(2 * time.Second) // one-way calls reach the servant
 	s.mu.Lock()
 	s.done = true
